@@ -364,6 +364,8 @@ def run(ctx):
                      "external library.")
     ctx.floor = 30
     refusal_inventory(ctx)
+    from .c04 import verified_aggregate_released
+    verified_aggregate_released(ctx)
     P = ctx.prog
     wrappers(ctx, ['round2::sign', 'aggregate', 'aggregate_custom', 'round1::commit'])
     # (1) reductions
